@@ -277,9 +277,9 @@ func c12Once(c *mon.Ctx) {
 
 func init() {
 	mon.Register(&mon.Check{
-		ID:    "C12",
-		Procs: func(c *mon.Ctx) int { return 1 },
-		Rule:  "exhaustive over the live registry of a default build (the harness imports only the zlint root package, lint and util): every registered lint is checked for naming, description, source, implementation, dates, and for agreement of lookup by name / by source / listing / source list; the expected set is a syntactic census (go/parser) of lint.Register* call sites under v3/lints of the tree under test. evaluations = census sites + lints checked; distinct_nontrivial = lints checked.",
+		ID:          "C12",
+		Procs:       func(c *mon.Ctx) int { return 1 },
+		Rule:        "exhaustive over the live registry of a default build (the harness imports only the zlint root package, lint and util): every registered lint is checked for naming, description, source, implementation, dates, and for agreement of lookup by name / by source / listing / source list; the expected set is a syntactic census (go/parser) of lint.Register* call sites under v3/lints of the tree under test. evaluations = census sites + lints checked; distinct_nontrivial = lints checked.",
 		Assumptions: []string{"the census recognises registrations written as lint.Register*Lint(...) with a literal Name, the form every lint file uses"},
 		Setup:       setupCommon,
 		Once:        c12Once,
